@@ -17,11 +17,18 @@ META = {
         "from four families: uniform random cells with density 0.2..0.6; exact-cover-by-construction (primaries partitioned "
         "into 1-4 blocks, one row per block, plus split / merge / duplicate / sub-block / noise / empty / secondary-only "
         "rows, optionally spoiled into a near miss, rows permuted); 'combi' (rows with 1-3 ones, many overlapping covers); "
-        "'tall' (density 0.4..0.6, long cover/uncover sequences); then forced empty rows, duplicate rows, empty columns. Secondary "
+        "'tall' (density 0.4..0.6, long cover/uncover sequences); then forced empty rows, duplicate rows, empty columns. "
+        "Three families built around secondary columns: 'forced' (every primary column has exactly one candidate row, 3-6 such "
+        "rows, 1-3 secondary columns hit by 1-3 of them: unique cover or a clash between possibly non-adjacent rows; up to 11 "
+        "columns), 'selector' (random matrix plus a primary column whose 2-3 rows differ only in the secondary columns they "
+        "occupy), 'sectrap' (covers and near-covers differing only in secondary usage: with the secondary taken the remaining "
+        "primaries are a dead end that needs a real backtrack, with it free they have covers). Secondary "
         "columns none/some/all, given by index (columns omitted) or by name (str, reversed ints, mixed int/str/tuple, explicit "
         "range), list or tuple containers; find_all on/off; max_solutions in {None,1,2,5}; max_iter default, small absolute "
         "(1..30), exactly the number of iterations the unrestricted run needs, or one less. A second sub-check enumerates the "
-        "zero-column inputs ([], [[]], [[],[]]). Oracle: subset DP over the rows with a primary 1 (recursive branching when "
+        "zero-column inputs ([], [[]], [[],[]]); a third one (small_scope) enumerates EVERY 0/1 matrix with <=4 rows x <=4 "
+        "columns and 5x2, 6x2 (thorough: also 7x2, 5x3, 6x3, 3x5) with every subset of secondary columns, find_all on and off "
+        "(blocks of 2048 matrices per case; counter 'matrices'). Oracle: subset DP over the rows with a primary 1 (recursive branching when "
         "more than 12 such rows) + a column-counting validity predicate; both directions for find_all, count/status mapping "
         "for max_solutions, INFEASIBLE iff no cover, MAX_ITER only with a small max_iter, inputs deep-equal afterwards, "
         "second call returns an equal Result. Non-trivial = at least 2 covers, or 0 covers although every primary column "
@@ -35,15 +42,15 @@ META = {
 
 # Deterministic work limit per solve_exact_cover call (DESIGN §2.4): JUMP|BRANCH events inside solvor/dlx.py.
 # Maximum observed on /repo over the calibration runs (quick seeds 1,2,3,7,42 + one thorough run): see ctx.size
-# "steps" in the evidence (2.0e3 quick, 3.0e3 thorough); the limit is > 100x that.  A corrupted link ring that loops forever trips any
-# finite limit; such a case is inconclusive ("step-budget"), never an alarm, because C07 does not claim termination.
+# "steps" in the evidence (2.0e3 quick, 3.8e3 thorough); the limit is > 100x that.  A corrupted link ring that loops forever trips any
+# finite limit; what a trip means is decided by Sub.hang (set to "violation" by the maintainers of the runner).
 STEP_LIMIT = 2_000_000
 
 KS = [None, 2, 1, 5, None, None]
 MAX_ITERS = ["default", "abs", "exact", "minus", "default", "default", "default", "abs"]
 EXTRA_OPS = ["split", "split", "merge", "dup", "noise", "noise", "sub", "empty", "seconly"]
 POST_OPS = ["empty_row", "dup_row", "empty_col"]
-FAMILIES = ["planted", "random", "tall", "planted", "combi", "random", "tall", "planted"]
+FAMILIES = ["planted", "forced", "random", "tall", "sectrap", "planted", "selector", "combi", "random", "tall", "planted", "forced"]
 
 
 def name_of(scheme, i, n):
@@ -61,11 +68,112 @@ def _bits_row(a, ncols, only=None):
     return [1 if (a >> j & 1) and (only is None or j in only) else 0 for j in range(ncols)]
 
 
+def _forced(draw):
+    """Every primary column has exactly one candidate row (a partition of the primaries into 3-6 rows); 1-3 secondary
+    columns are hit by 1-3 of those rows each, so the forced selection either is the unique cover or clashes on a
+    secondary column (possibly only between rows that are not neighbours in row or column order)."""
+    k = draw(st.sampled_from([4, 3, 5, 6]))
+    nprim = k + draw(st.sampled_from([0, 1, 0, 2]))
+    nsec = draw(st.sampled_from([2, 1, 3]))
+    ncols = nprim + nsec
+    cols = list(draw(st.permutations(range(ncols))))
+    prim, sec = cols[:nprim], cols[nprim:]
+    owner = list(range(k)) + draw(st.lists(st.integers(0, k - 1), min_size=nprim - k, max_size=nprim - k))
+    rows = [[0] * ncols for _ in range(k)]
+    for x, p in enumerate(prim):
+        rows[owner[x]][p] = 1
+    for s_ in sec:
+        hits = draw(st.lists(st.integers(0, k - 1), min_size=1, max_size=3, unique=True))
+        for r in hits:
+            rows[r][s_] = 1
+    for a in draw(st.lists(st.integers(0, (1 << 20) - 1), max_size=2)):  # rows without a primary 1 (never selectable)
+        rows.append(_bits_row(a, ncols, only=set(sec)))
+    rows = [list(r) for r in draw(st.permutations(rows))]
+    return ncols, rows, sorted(sec)
+
+
+def _selector(draw):
+    """A random matrix with 1-2 secondary columns plus a 'selector' primary column whose 2-3 rows differ only in the
+    secondary columns they occupy: the same set of open primary columns is then reached with different secondary usage."""
+    nr = draw(st.integers(3, 8))
+    nc = draw(st.sampled_from([4, 3, 5, 6]))
+    thr = draw(st.sampled_from([4, 3, 5]))
+    cells = draw(st.lists(st.integers(0, 9), min_size=nr * nc, max_size=nr * nc))
+    base = [[1 if cells[i * nc + j] < thr else 0 for j in range(nc)] for i in range(nr)]
+    sec = sorted(draw(st.lists(st.integers(0, nc - 1), min_size=1, max_size=2, unique=True)))
+    xpos = draw(st.sampled_from([0, 0, 1, 0, 2])) % (nc + 1)
+    variants = draw(st.lists(st.lists(st.sampled_from(sec), max_size=2, unique=True).map(sorted), min_size=2, max_size=3, unique_by=tuple))
+    rows = [r[:xpos] + [0] + r[xpos:] for r in base]
+    sec = [j + (1 if j >= xpos else 0) for j in sec]
+    for v in variants:
+        row = [0] * (nc + 1)
+        row[xpos] = 1
+        for j in v:
+            row[j + (1 if j >= xpos else 0)] = 1
+        rows.insert(draw(st.integers(0, len(rows))), row)
+    return nc + 1, rows, sec
+
+
+def _sectrap(draw):
+    """Covers and near-covers that differ only in secondary usage: selector X (rows X+S, X), a block P that is coverable
+    either by its own row P+S or by 'bridge' rows {p,q}, a block {q,q2} and a row q2+S.  With S taken by X+S the rest is
+    a dead end that needs a real backtrack (no empty column); with S free the same open columns have covers."""
+    nbs = draw(st.sampled_from([1, 2]))
+    nfree = draw(st.sampled_from([0, 1, 0, 2]))
+    nsec = draw(st.sampled_from([1, 2]))
+    names = ["X"] + [f"p{i}" for i in range(nbs)] + ["q", "q2"] + [f"f{i}" for i in range(nfree)] + [f"S{i}" for i in range(nsec)]
+    R = [["X", "S0"], ["X"], [f"p{i}" for i in range(nbs)] + ["S0"]]
+    R += [[f"p{i}", "q"] for i in range(nbs)]
+    R += [["q", "q2"], ["q2", "S0"]]
+    if nfree:
+        R.append([f"f{i}" for i in range(nfree)])
+    if nsec > 1:
+        flags = draw(st.lists(st.sampled_from([0, 0, 1]), min_size=len(R), max_size=len(R)))
+        for r, f in zip(R, flags):
+            if f:
+                r.append("S1")
+    extra = draw(st.sampled_from([0, 0, 1, 2]))
+    if extra == 1:
+        R.append(["X", "S1" if nsec > 1 else "S0"])
+    elif extra == 2:
+        R.append(["q"])
+    ncols = len(names)
+    perm = list(draw(st.permutations(range(ncols)))) if draw(st.sampled_from([True, False])) else list(range(ncols))
+    idx = {n: perm[i] for i, n in enumerate(names)}
+    rows = [[0] * ncols for _ in R]
+    for i, r in enumerate(R):
+        for n in r:
+            rows[i][idx[n]] = 1
+    if draw(st.sampled_from([True, False])):
+        rows = [list(r) for r in draw(st.permutations(rows))]
+    return ncols, rows, sorted(idx[n] for n in names if n.startswith("S"))
+
+
+def _params(draw, family, ncols, rows, sec):
+    return {
+        "family": family,
+        "ncols": ncols,
+        "rows": rows,
+        "sec": sec,
+        "scheme": draw(st.sampled_from([2, 0, 1, 3, 4, 0])),
+        "sec_rev": draw(st.booleans()),
+        "sec_empty_as_list": draw(st.booleans()),
+        "containers": draw(st.integers(0, 3)),
+        "find_all": draw(st.sampled_from([True, False])),
+        "k": draw(st.sampled_from(KS)),
+        "mi": draw(st.sampled_from(MAX_ITERS)),
+        "miv": draw(st.integers(1, 30)),
+    }
+
+
 @st.composite
 def instances(draw, tier="quick"):
     thorough = tier == "thorough"
     rmax, cmax = (12, 8) if thorough else (9, 7)
     family = draw(st.sampled_from(FAMILIES))
+    if family in ("forced", "selector", "sectrap"):
+        ncols, rows, sec = {"forced": _forced, "selector": _selector, "sectrap": _sectrap}[family](draw)
+        return _params(draw, family, ncols, rows, sec)
     # (Hypothesis favours the first element of sampled_from, so the plain choice is never listed first)
     if family == "tall":
         ncols = draw(st.sampled_from([5, 4, 6, 7]))
@@ -164,20 +272,7 @@ def instances(draw, tier="quick"):
             for r in rows:
                 r[j] = 0
 
-    return {
-        "family": family,
-        "ncols": ncols,
-        "rows": rows,
-        "sec": sec,
-        "scheme": draw(st.sampled_from([2, 0, 1, 3, 4, 0])),
-        "sec_rev": draw(st.booleans()),
-        "sec_empty_as_list": draw(st.booleans()),
-        "containers": draw(st.integers(0, 3)),
-        "find_all": draw(st.sampled_from([True, False])),
-        "k": draw(st.sampled_from(KS)),
-        "mi": draw(st.sampled_from(MAX_ITERS)),
-        "miv": draw(st.integers(1, 30)),
-    }
+    return _params(draw, family, ncols, rows, sec)
 
 
 # ----------------------------------------------------------------------------- validation shared by both sub-checks
@@ -415,8 +510,84 @@ def run_zero(desc, ctx):
         raise Violation("zero-cols:second-call-differs", None)
 
 
+# ----------------------------------------------------------------------------- small scope, exhaustive
+# Every 0/1 matrix of the listed shapes x every subset of secondary columns, find_all on and off, default names.
+# One "case" is a block of up to SMALL_BLOCK consecutive matrices (cell (i,j) = bit i*ncols+j of the code), so that the
+# per-case overhead of the harness is paid once per block; the number of matrices is in the counter "matrices".
+SMALL_BLOCK = 2048
+SMALL_STEP_LIMIT = 200_000  # per call; the largest count on /repo for these shapes is below 1 000 events (>= 200x margin)
+SMALL_SHAPES = {
+    "quick": [(r, c) for r in range(1, 5) for c in range(1, 5)] + [(5, 2), (6, 2)],  # 1.2e6 matrices
+    "thorough": [(r, c) for r in range(1, 5) for c in range(1, 5)] + [(5, 2), (6, 2), (7, 2), (5, 3), (6, 3), (3, 5)],  # 4.6e6
+}
+
+
+def small_cases(tier):
+    for r, c in SMALL_SHAPES["thorough" if tier == "thorough" else "quick"]:
+        total = 1 << (r * c)
+        for secmask in range(1 << c):
+            for start in range(0, total, SMALL_BLOCK):
+                yield {"small": True, "nrows": r, "ncols": c, "secmask": secmask, "start": start, "count": min(SMALL_BLOCK, total - start)}
+
+
+def run_small(desc, ctx):
+    from solvor import dlx
+    from solvor.types import Status
+
+    budget.instrument(dlx)  # a corrupted link ring must not stall a whole block until the wall-clock backstop
+
+    def solve_exact_cover(matrix, **kw):
+        try:
+            with budget.steps(SMALL_STEP_LIMIT):
+                return dlx.solve_exact_cover(matrix, **kw)
+        except budget.StepBudgetExceeded:
+            raise Violation("small:does-not-return:step-budget-exceeded", {"matrix": [list(x) for x in matrix], "kwargs": repr(kw), "limit": SMALL_STEP_LIMIT})
+
+    r, c, secmask = desc["nrows"], desc["ncols"], desc["secmask"]
+    full = (1 << c) - 1
+    pm, sm = full & ~secmask, secmask
+    sec = [j for j in range(c) if secmask >> j & 1]
+    primary = [j for j in range(c) if not secmask >> j & 1]
+    kw = {"secondary": sec} if sec else {}
+    ctx.label(f"shape-{r}x{c}", "sec-none" if not sec else "sec-all" if not primary else "sec-some")
+    multi = 0
+    for code in range(desc["start"], desc["start"] + desc["count"]):
+        rows_m = [(code >> (i * c)) & full for i in range(r)]
+        ref = C.covers_subsets(rows_m, pm, sm)
+        rows = [[m >> j & 1 for j in range(c)] for m in rows_m]
+        matrix = [list(x) for x in rows]
+        ra = ctx.call(solve_exact_cover, matrix, find_all=True, **kw)
+        r1 = ctx.call(solve_exact_cover, matrix, **kw)
+        multi += len(ref) >= 2
+        # fast path: exactly the reference set / one member of it, documented statuses, input untouched
+        sa = ra.solution
+        ok = matrix == rows
+        if ref:
+            ok = ok and ra.status == Status.OPTIMAL and isinstance(sa, list) and len(sa) == len(ref) and {frozenset(x) for x in sa} == ref
+            ok = ok and all(len(set(x)) == len(x) for x in sa)
+            s1 = r1.solution
+            ok = ok and r1.status in (Status.OPTIMAL, Status.FEASIBLE) and isinstance(s1, tuple) and len(set(s1)) == len(s1) and frozenset(s1) in ref
+        else:
+            ok = ok and ra.status == Status.INFEASIBLE and r1.status == Status.INFEASIBLE
+        if not ok:  # slow path: the shared validator names the clause; the detail carries a stand-alone exact_cover case
+            as_case = {"family": "small", "ncols": c, "rows": rows, "sec": sec, "scheme": 0, "sec_rev": False, "sec_empty_as_list": False,
+                       "containers": 0, "find_all": True, "k": None, "mi": "default", "miv": 1}
+            for res, fa in ((ra, True), (r1, False)):
+                try:
+                    validate(res, rows=rows, primary=primary, ncols=c, ref=ref, find_all=fa, k=None, small_iter=False, max_iter=10_000_000, pre="small:")
+                except Violation as v:
+                    raise Violation(v.bucket, {"matrix": rows, "secondary": sec, "find_all": fa, "why": v.detail, "exact_cover_case": dict(as_case, find_all=fa)})
+            if matrix != rows:
+                raise Violation("small:input-modified", {"matrix": rows, "secondary": sec})
+            raise Violation("small:fast-and-slow-path-disagree", {"matrix": rows, "secondary": sec})
+    ctx.count("matrices", desc["count"])
+    ctx.nontrivial(multi > 0)
+    ctx.size("matrices_with_2+_covers_in_block", multi)
+
+
 SUBS = [
     Sub("exact_cover", run, strategy=lambda tier: instances(tier), quick=2500, thorough=8000, workers_quick=4, case_timeout=20.0, hang="violation"),
     Sub("zero_columns", run_zero, enumerate=zero_cases, workers_quick=1, workers_thorough=1),
+    Sub("small_scope", run_small, enumerate=small_cases, workers_quick=8, workers_thorough=16, case_timeout=120.0),
 ]
 AMPLIFY = [("exact_cover", 15000, 4)]  # thorough-tier coverage-guided amplifier (vf/fuzz.py)
